@@ -243,7 +243,7 @@ def prove_mutex():
     d = tempfile.mkdtemp(prefix="tlaps-", dir=core.scratch())
     for f in ("ContainerConc.tla", "ContainerConcProofs.tla"):
         shutil.copy(os.path.join(core.SPEC, f), d)
-    p = core.sh(["tlapm", "--threads", str(min(8, core.NCPU)), "ContainerConcProofs.tla"], cwd=d, check=False, timeout=1800, env=dict(os.environ))
+    p = core.sh(["tlapm", "--threads", str(core.NCPU), "ContainerConcProofs.tla"], cwd=d, check=False, timeout=1800, env=dict(os.environ))
     m = re.search(r"All (\d+) obligations? proved", p.stdout)
     if not m:
         raise core.InfraError("TLAPS could not discharge the proof of mutual exclusion:\n" + p.stdout[-2000:])
@@ -441,8 +441,10 @@ def run_c20(tier):
                 "derived contextual scope, tags, decorators, getters) x goroutine counts %s x %d runs of 3 rounds of 4 random operations per goroutine "
                 "over 3 contexts, under the race detector; distinct_nontrivial = configuration x goroutine count" % (len(live), fam, Gs, reps),
         "exhaustive": False, "tlc_instances": tlc,
-        "tlaps": {"module": "ContainerConcProofs.tla", "theorem": "Inv (typing, a frame inside a critical section belongs to the goroutine the lock "
-                  "table names, no goroutine holds one entry twice) is inductive for every instance; Inv => MutualExclusion",
+        "tlaps": {"module": "ContainerConcProofs.tla", "theorem": "for every instance (any goroutines, services, parameters, dependency relation, scripts): "
+                  "Inv (typing; a frame inside a critical section belongs to the goroutine the lock table names; no goroutine holds one entry "
+                  "twice) and OnceInv (built[s] tied to the position of the one frame inside the critical section of a shared s) are inductive; "
+                  "Spec => []MutualExclusion and Spec => []ConstructedOnce",
                   "obligations": obligations, "discharged": obligations, "instances_checked_against_Inv_by_TLC": bool(stdlib)}, "fine_grained_binding": {k: x for k, x in fine.items() if k != "sample"}, "operations_returned": n_ops, "trace_events": len(lines),
         "known_findings_hit": {k: n for k, (f, n) in v.known_hit.items()},
     }, time.time() - t0, violations=len(v.violations), assumptions=[
